@@ -365,6 +365,8 @@ func checkC03(r *Report) {
 	nSB := sepBytesRule(r, p, "C03/SEP-BYTES")
 	r.floor("C03/SEP-BYTES", "bytes interpreted through System.typeOf (pep440 separators, Maven printable bytes)", nSB, 90)
 
+	prefilterFoldsRule(r, p, "C03/PREFILTER-FOLDS")
+
 	// EXHAUSTIVE: token kinds used as values vs parser cases
 	unary := map[string]bool{}
 	for _, t := range tables {
